@@ -44,6 +44,7 @@ pub(crate) mod inscriptions;
 mod into_u64;
 mod into_usize;
 pub mod runes;
+pub(crate) mod settings;
 
 type Result<T = (), E = Error> = std::result::Result<T, E>;
 
